@@ -80,9 +80,16 @@ NAMED_CONSTS = [
     ('3.28986813369645', 'PI2/3', 'pi2', Fraction(1, 3)),
     ('1.64493406684822', 'PI2/6', 'pi2', Fraction(1, 6)),
     ('0.82246703342411', 'PI2/12', 'pi2', Fraction(1, 12)),
+    ('0.00633257397764', '1/(16PI2)', 'invpi2', Fraction(1, 16)),
+    ('6.33257397764', '1/(16PI2)', 'invpi2', Fraction(1, 16)),
     ('1.38629436111989', 'LN4', 'ln', Fraction(4)),
     ('0.69314718055994', 'LN2', 'ln', Fraction(2)),
 ]
+
+def _named_value(kind, par):
+    p = float(par)
+    return {'sqrt': math.sqrt(p), 'pi': p * math.pi, 'pi2': p * math.pi ** 2, 'invpi2': p / math.pi ** 2, 'ln': math.log(p)}[kind]
+NAMED_VALUE = {name: _named_value(kind, par) for prefix, name, kind, par in NAMED_CONSTS}
 
 class Sym:
     """state of one symbolic path"""
@@ -229,11 +236,12 @@ class Interp:
             return float(n.value)
         txt = n.text.rstrip('fFlL')
         if self.named_consts:
-            t = txt.lstrip('+')
-            mant = t.split('e')[0].split('E')[0]
-            if 'e' not in t.lower() or t.lower().endswith(('e0', 'e+0', 'e+00')):
+            digits = len(txt.lower().split('e')[0].replace('.', '').replace('+', '').replace('-', '').lstrip('0'))
+            if digits >= 13:
+                val = float(txt)
                 for prefix, name, kind, par in NAMED_CONSTS:
-                    if mant.startswith(prefix) and len(mant.replace('.', '')) >= 14:
+                    ref = NAMED_VALUE[name]
+                    if abs(val - ref) <= 2e-14 * abs(ref):
                         self.fire('named-const:' + name)
                         return self.named_const(name, kind, par)
         return Fraction(txt)
@@ -251,6 +259,10 @@ class Interp:
             c = z3.Real('c_PI')
             self.axiom(z3.And(c > z3.Q(314159265358979, 10**14), c < z3.Q(314159265358980, 10**14)), ('const', 'PI'))
             return mul(par, c * c)
+        if kind == 'invpi2':
+            c = z3.Real('c_PI')
+            self.axiom(z3.And(c > z3.Q(314159265358979, 10**14), c < z3.Q(314159265358980, 10**14)), ('const', 'PI'))
+            return to_z3(par) / (c * c)
         if kind == 'ln':
             return self.uf('ln', par)
         raise EvalError(kind)
